@@ -673,7 +673,7 @@ func (o *FilterOptimizer) intersectionRange(l, r *ScanType) *ScanType {
 	}
 
 	// start == end just use MGET
-	if bytes.Compare(nstart, nend) == 0 {
+	if nstart != nil && nend != nil && bytes.Compare(nstart, nend) == 0 {
 		return &ScanType{MGET, [][]byte{nstart}}
 	}
 
@@ -743,7 +743,7 @@ func (o *FilterOptimizer) unionRange(l, r *ScanType) *ScanType {
 	}
 
 	// start == end just use MGET scan
-	if bytes.Compare(nstart, nend) == 0 {
+	if nstart != nil && nend != nil && bytes.Compare(nstart, nend) == 0 {
 		return &ScanType{MGET, [][]byte{nstart}}
 	}
 	// The two ranges do not touch and the gap lies between them: there is no
